@@ -15,68 +15,72 @@ NODES = ["n0", "n1", "n2"]
 
 
 # ------------------------------------------------------------------ clocks
-def clocks(sym, tier):
-    """History of local/send/receive steps among N nodes executed on the real Lamport,
-    vector and hybrid logical clocks.  Initial clock states are symbolic (arbitrary
-    consistent prior history); physical clock readings are symbolic, non-decreasing
-    per node, arbitrary skew between nodes."""
-    r = Result()
+def _history(sym, tier, which):
+    """Run a symbolic history of local/send/receive steps on one real clock family.
+    Returns (events, reach) where events[i] = (node, stamp) and reach is the
+    happened-before relation (program order + send->receive, transitively closed).
+    The first step is at node 0 (node symmetry)."""
     N = 2 if tier == "quick" else 3
     S = 4 if tier == "quick" else 5
     ids = NODES[:N]
-    lam = [LamportClock(sym.int(f"lam_init{i}", 0, 3)) for i in range(N)]
-    vec = [VectorClock(ids[i], ids) for i in range(N)]
-    # consistent initial vectors: own entry >= anybody's view of it
-    own = [sym.int(f"vc_own{i}", 0, 2) for i in range(N)]
-    for i in range(N):
-        for j in range(N):
-            if i == j:
-                vec[i]._vector[ids[j]] = own[j]
-            else:
-                lag = sym.int(f"vc_lag{i}{j}", 0, 2)
-                v = own[j] - lag
-                vec[i]._vector[ids[j]] = v if v > 0 else 0
-    phys = [sym.int(f"phys_base{i}", 0, 3) for i in range(N)]
-    cur = list(phys)
-    hlc = [HybridLogicalClock(ids[i], wall_time=(lambda i=i: Instant(cur[i]))) for i in range(N)]
-
-    events = []      # (node, lamport, vector snapshot, hlc ts)
-    hb = []          # direct edges (a_idx, b_idx)
+    if which == "lamport":
+        clk = [LamportClock(sym.int(f"lam_init{i}", 0, 3)) for i in range(N)]
+    elif which == "vector":
+        clk = [VectorClock(ids[i], ids) for i in range(N)]
+        own = [sym.int(f"vc_own{i}", 0, 2) for i in range(N)]
+        for i in range(N):
+            for j in range(N):
+                if i == j:
+                    clk[i]._vector[ids[j]] = own[j]
+                else:   # a node never knows more about j than j itself (consistent prior history)
+                    clk[i]._vector[ids[j]] = own[j] if sym.bool(f"vc_uptodate{i}{j}") else 0
+    else:
+        cur = [sym.int(f"phys_base{i}", 0, 3) for i in range(N)]
+        clk = [HybridLogicalClock(ids[i], wall_time=(lambda i=i: Instant(cur[i]))) for i in range(N)]
+    events, hb, pool = [], [], []
     last_at = [None] * N
-    pool = []        # (sender, event idx, lamport ts, vector, hlc ts)
+    wit = set()
+
+    def stamp(n):
+        if which == "lamport":
+            return clk[n].time
+        if which == "vector":
+            return clk[n].snapshot()
+        return clk[n]._last
 
     def record(n):
         idx = len(events)
-        events.append((n, lam[n].time, vec[n].snapshot(), hlc[n]._last))
+        events.append((n, stamp(n)))
         if last_at[n] is not None:
             hb.append((last_at[n], idx))
         last_at[n] = idx
         return idx
 
     for s in range(S):
-        op = sym.choice(f"op{s}", 3 * N)
-        kind, n = op // N, op % N
-        cur[n] = cur[n] + sym.int(f"phys_inc{s}", 0, 2)
+        if s == 0:
+            kind, n = sym.choice("kind0", 2), 0
+        else:
+            op = sym.choice(f"op{s}", 3 * N)
+            kind, n = op // N, op % N
+        if which == "hlc":
+            cur[n] = cur[n] + sym.int(f"phys_inc{s}", 0, 2)
         cands = [m for m in pool if m[0] != n]
         if kind == 2 and cands:
             m = cands[sym.choice(f"msg{s}", len(cands))] if len(cands) > 1 else cands[0]
             pool.remove(m)
-            lam[n].receive(m[2])
-            vec[n].receive(m[3])
-            hlc[n].receive(m[4])
+            clk[n].receive(m[2])
             idx = record(n)
             hb.append((m[1], idx))
-            r.wit.add("receive")
+            wit.add("receive")
         elif kind == 1:
-            lt = lam[n].send()
-            vt = vec[n].send()
-            ht = hlc[n].send()
+            ts = clk[n].send()
             idx = record(n)
-            pool.append((n, idx, lt, vt, ht))
+            pool.append((n, idx, ts))
         else:
-            lam[n].tick()
-            vec[n].tick()
-            hlc[n].now()
+            if which == "hlc":
+                clk[n].now()
+            else:
+                clk[n].tick()
             record(n)
     E = len(events)
     reach = [[False] * E for _ in range(E)]
@@ -88,40 +92,78 @@ def clocks(sym, tier):
                 for b in range(E):
                     if reach[k][b]:
                         reach[a][b] = True
+    return ids, events, reach, wit
+
+
+def lamport(sym, tier):
+    r = Result()
+    ids, events, reach, wit = _history(sym, tier, "lamport")
+    r.wit |= wit
+    for a in range(len(events)):
+        for b in range(len(events)):
+            if reach[a][b]:
+                if events[a][0] != events[b][0]:
+                    r.wit.add("cross_node_causal_pair")
+                if not (events[a][1] < events[b][1]):
+                    r.bad("lamport_causality", a, b, events[a][1], events[b][1])
+    r.obs = {"events": [[e[0], e[1]] for e in events]}
+    return r
+
+
+def hlc(sym, tier):
+    r = Result()
+    ids, events, reach, wit = _history(sym, tier, "hlc")
+    r.wit |= wit
+    for a in range(len(events)):
+        for b in range(len(events)):
+            if reach[a][b]:
+                if events[a][0] != events[b][0]:
+                    r.wit.add("cross_node_causal_pair")
+                ta, tb = events[a][1], events[b][1]
+                if not (ta < tb):
+                    r.bad("hlc_causality", a, b, [ta.physical_ns, ta.logical], [tb.physical_ns, tb.logical])
+    r.obs = {"events": [[e[0], e[1].physical_ns, e[1].logical] for e in events]}
+    return r
+
+
+def vector(sym, tier):
+    r = Result()
+    ids, events, reach, wit = _history(sym, tier, "vector")
+    r.wit |= wit
+    E = len(events)
     for a in range(E):
         for b in range(E):
             if a == b:
                 continue
-            ea, eb = events[a], events[b]
-            va = VectorClock(ids[ea[0]], ids); va._vector = dict(ea[2])
-            vb = VectorClock(ids[eb[0]], ids); vb._vector = dict(eb[2])
+            va = VectorClock(ids[events[a][0]], ids); va._vector = dict(events[a][1])
+            vb = VectorClock(ids[events[b][0]], ids); vb._vector = dict(events[b][1])
             vhb = va.happened_before(vb)
             if reach[a][b]:
-                if not (ea[1] < eb[1]):
-                    r.bad("lamport_causality", a, b, ea[1], eb[1])
-                if not (ea[3] < eb[3]):
-                    r.bad("hlc_causality", a, b, [ea[3].physical_ns, ea[3].logical], [eb[3].physical_ns, eb[3].logical])
-                if not vhb:
-                    r.bad("vector_orders_causal_pairs", a, b, ea[2], eb[2])
-                if ea[0] != eb[0]:
+                if events[a][0] != events[b][0]:
                     r.wit.add("cross_node_causal_pair")
+                if not vhb:
+                    r.bad("vector_orders_causal_pairs", a, b, events[a][1], events[b][1])
             else:
                 if vhb:
-                    r.bad("vector_orders_only_causal_pairs", a, b, ea[2], eb[2])
+                    r.bad("vector_orders_only_causal_pairs", a, b, events[a][1], events[b][1])
                 if not reach[b][a]:
                     r.wit.add("concurrent_pair")
                     if not va.is_concurrent(vb):
-                        r.bad("vector_concurrent", a, b, ea[2], eb[2])
-    r.obs = {"events": [[e[0], e[1], e[2], [e[3].physical_ns, e[3].logical]] for e in events]}
+                        r.bad("vector_concurrent", a, b, events[a][1], events[b][1])
+    r.obs = {"events": [[e[0], e[1]] for e in events]}
     return r
 
 
 # ------------------------------------------------------------------ counters
-def _sym_gcounter(sym, tag, node):
+def _sym_gcounter(sym, tag, node, tier):
+    """Arbitrary G-counter state; one symbolic flag decides whether the entry of the
+    'last' node id is absent (never heard of) rather than present."""
     g = GCounter(node)
-    for j, nid in enumerate(NODES):
-        if sym.bool(f"{tag}_has{j}"):
-            g._counts[nid] = sym.int(f"{tag}_c{j}", 0, 3)
+    ids = NODES[:2] if tier == "quick" else NODES
+    for j, nid in enumerate(ids):
+        if j == len(ids) - 1 and sym.bool(f"{tag}_missing_last"):
+            continue
+        g._counts[nid] = sym.int(f"{tag}_c{j}", 0, 3)
     return g
 
 
@@ -134,7 +176,7 @@ def _copy_g(g):
 def counter_merge_laws(sym, tier):
     """merge on arbitrary G-counter / PN-counter states is commutative, associative, idempotent."""
     r = Result()
-    a, b, c = (_sym_gcounter(sym, t, n) for t, n in (("a", "n0"), ("b", "n1"), ("c", "n2")))
+    a, b, c = (_sym_gcounter(sym, t, n, tier) for t, n in (("a", "n0"), ("b", "n1"), ("c", "n2")))
 
     def m(x, y):
         z = _copy_g(x)
@@ -172,13 +214,13 @@ def counter_script(sym, tier):
     all-to-all exchange every replica equals the others and value = sum(inc) - sum(dec);
     before that a replica never exceeds what was issued and always includes its own ops."""
     r = Result()
-    S = 4 if tier == "quick" else 5
+    S = 3 if tier == "quick" else 4
     reps = [PNCounter(n) for n in NODES]
     inc = [0, 0, 0]
     dec = [0, 0, 0]
     for s in range(S):
         op = sym.choice(f"op{s}", 4)
-        i = sym.choice(f"rep{s}", 3)
+        i = sym.choice(f"rep{s}", 3) if s > 0 else 0       # replica symmetry
         if op == 0:
             n = sym.int(f"amt{s}", 1, 5)
             reps[i].increment(n)
@@ -268,18 +310,22 @@ def orset(sym, tier):
     op-based specification: e is present at r iff some add of e observed by r has not
     been observed-removed at r (removals travel with merges)."""
     r = Result()
-    R = 2 if tier == "quick" else 3
-    S = 4 if tier == "quick" else 5
+    cfg = sym.choice("cfg", 2)          # 0: 2 replicas, 1: 3 replicas (thorough only)
+    R = 2 if cfg == 0 else 3
+    S = 4 if (tier == "quick" or cfg == 1) else 5
     reps = [ORSet(NODES[i]) for i in range(R)]
     seen = [set() for _ in range(R)]       # add ids observed
     removed = [set() for _ in range(R)]    # add ids whose removal was observed
     adds = {}                              # add id -> element
     script = []
     for s in range(S):
-        op = sym.choice(f"op{s}", 4)
-        i = sym.choice(f"rep{s}", R)
+        if s == 0:
+            op, i = 0, 0                 # histories start with an add at replica 0 (nothing to remove/merge before)
+        else:
+            op = sym.choice(f"op{s}", 4)
+            i = sym.choice(f"rep{s}", R)
         if op == 0:
-            e = ELEMS[sym.choice(f"el{s}", 2)]
+            e = ELEMS[sym.choice(f"el{s}", 2)] if s > 0 else ELEMS[0]
             reps[i].add(e)
             aid = len(adds)
             adds[aid] = e
@@ -351,15 +397,15 @@ def orset_roundtrip(sym, tier):
             tgt.merge(b if tgt is a else a)
     a2 = ORSet.from_dict(a.to_dict())
     if a2.elements != a.elements:
-        r.bad("orset_roundtrip_preserves_value", sorted(a.elements, key=repr), sorted(a2.elements, key=repr))
+        r.bad("orset_roundtrip_preserves_value", [repr(e) for e in a.elements], [repr(e) for e in a2.elements])
     m1 = ORSet.from_dict(b.to_dict()) if False else b
     x = ORSet("n2"); x.merge(a); x.merge(m1)
     y = ORSet("n2"); y.merge(a2); y.merge(m1)
     if x.elements != y.elements:
-        r.bad("orset_roundtrip_preserves_merge", sorted(x.elements, key=repr), sorted(y.elements, key=repr))
+        r.bad("orset_roundtrip_preserves_merge", [repr(e) for e in x.elements], [repr(e) for e in y.elements])
     if use_int and a.elements:
         r.wit.add("int_elements_nonempty")
-    r.obs = {"elements": sorted(a.elements, key=repr)}
+    r.obs = {"n_elements": len(a.elements)}
     return r
 
 
@@ -370,39 +416,46 @@ def _rt_classify(clause, draws, obs):
     return None
 
 
+def _clock_h(name, fn, funcs, extra_bounds):
+    return H(name=name, fn=fn, shape="S",
+             cubes=lambda tier: [{"kind0": k, "op1": o} for k in range(2) for o in range(3 * (2 if tier == "quick" else 3))],
+             budget=lambda tier: 400.0 if tier == "quick" else 2400.0,
+             require=lambda tier: ["receive", "cross_node_causal_pair"] + (["concurrent_pair"] if name == "c18_vector" else []),
+             functions=funcs,
+             bounds=lambda tier: dict({"nodes": 2 if tier == "quick" else 3, "steps": 4 if tier == "quick" else 5,
+                                       "first step": "at node 0 (symmetry)"}, **extra_bounds),
+             outside=["more than 3 nodes / 5 steps per history"])
+
+
 HARNESSES = [
-    H(name="c18_clocks", fn=clocks, shape="S",
-      cubes=lambda tier: [{"op0": a, "op1": b} for a in range(3 * (2 if tier == "quick" else 3)) for b in range(3 * (2 if tier == "quick" else 3))],
-      budget=lambda tier: 300.0 if tier == "quick" else 1500.0,
-      require=lambda tier: ["receive", "cross_node_causal_pair", "concurrent_pair"],
-      functions=["LamportClock.tick/send/receive", "VectorClock.tick/send/receive/happened_before/is_concurrent",
-                 "HybridLogicalClock.now/send/receive", "HLCTimestamp.__lt__"],
-      bounds=lambda tier: {"nodes": 2 if tier == "quick" else 3, "steps": 4 if tier == "quick" else 5,
-                           "initial_lamport": "symbolic [0,3]", "initial_vectors": "symbolic, consistent (own entry >= others' view)",
-                           "physical_clock": "symbolic base [0,3] per node, symbolic increment [0,2] per step"},
-      outside=["more than 3 nodes / 5 steps per history", "HLC driven by a NodeClock with drift model (readings are arbitrary non-decreasing ints here, which subsumes it)"]),
+    _clock_h("c18_lamport", lamport, ["LamportClock.tick/send/receive"], {"initial_time": "symbolic [0,3] per node"}),
+    _clock_h("c18_vector", vector, ["VectorClock.tick/send/receive/happened_before/is_concurrent/snapshot"],
+             {"initial_vectors": "own entry symbolic [0,2]; each other node's view of it either up to date or 0"}),
+    _clock_h("c18_hlc", hlc, ["HybridLogicalClock.now/send/receive", "HLCTimestamp.__lt__"],
+             {"physical_clock": "symbolic base [0,3] per node (arbitrary skew), symbolic increment [0,2] per step (arbitrary drift)"}),
     H(name="c18_counter_laws", fn=counter_merge_laws, shape="I", budget=lambda tier: 300.0,
-      cubes=lambda tier: [{"a_has0": x, "a_has1": y} for x in (0, 1) for y in (0, 1)],
+      cubes=lambda tier: [{"a_missing_last": x, "b_missing_last": y} for x in (0, 1) for y in (0, 1)],
       require=lambda tier: ["states_differ"],
       functions=["GCounter.merge/value/node_value", "PNCounter.merge/to_dict/from_dict/__eq__"],
-      bounds=lambda tier: {"replica_states": "3 arbitrary states over 3 node ids, counts symbolic [0,3], keys optionally absent"}),
+      bounds=lambda tier: {"replica_states": "3 arbitrary states over %d node ids, counts symbolic [0,3], last key optionally absent" % (2 if tier == "quick" else 3)}),
     H(name="c18_counter_script", fn=counter_script, shape="S",
-      cubes=lambda tier: [{"op0": a, "rep0": b} for a in range(4) for b in range(3)],
-      budget=lambda tier: 300.0 if tier == "quick" else 1500.0,
+      cubes=lambda tier: [{"op0": a, "op1": b} for a in range(4) for b in range(4)],
+      budget=lambda tier: 400.0 if tier == "quick" else 2400.0,
       require=lambda tier: ["merge", "merge_via_dict"],
       functions=["PNCounter.increment/decrement/merge/value", "GCounter.increment/merge"],
-      bounds=lambda tier: {"replicas": 3, "ops": 4 if tier == "quick" else 5, "amounts": "symbolic [1,5]"}),
+      bounds=lambda tier: {"replicas": 3, "ops": 3 if tier == "quick" else 4, "amounts": "symbolic [1,5]"}),
     H(name="c18_lww", fn=lww, shape="I", budget=lambda tier: 300.0,
       cubes=lambda tier: [{"at0": a, "at1": b} for a in range(3) for b in range(3)],
       require=lambda tier: ["tie_broken_by_node_id"],
       functions=["LWWRegister.set/merge/to_dict/from_dict", "HLCTimestamp.__lt__/__eq__"],
       bounds=lambda tier: {"writes": 3, "timestamps": "symbolic (physical [0,2], logical [0,2], node in 2)", "replicas": 3}),
     H(name="c18_orset", fn=orset, shape="S",
-      cubes=lambda tier: [{"op0": a, "op1": b} for a in range(4) for b in range(4)],
-      budget=lambda tier: 300.0 if tier == "quick" else 1500.0, classify=orset_classify,
+      cubes=lambda tier: [{"cfg": c, "op1": a, "op2": b} for c in ((0,) if tier == "quick" else (0, 1)) for a in range(4) for b in range(4)],
+      budget=lambda tier: 400.0 if tier == "quick" else 3000.0, classify=orset_classify,
       require=lambda tier: ["merge_carries_removal_of_known_add"],
       functions=["ORSet.add/remove/merge/contains/elements/__eq__/to_dict/from_dict"],
-      bounds=lambda tier: {"replicas": 2 if tier == "quick" else 3, "ops": 4 if tier == "quick" else 5, "elements": 2},
+      bounds=lambda tier: {"configs": "2 replicas x 4 ops" if tier == "quick" else "2 replicas x 5 ops, 3 replicas x 4 ops",
+                           "elements": 2, "first op": "add(x) at replica 0"},
       outside=["more than 3 replicas", "scripts longer than 5 operations"]),
     H(name="c18_orset_roundtrip", fn=orset_roundtrip, shape="I", budget=lambda tier: 300.0, classify=_rt_classify,
       cubes=lambda tier: [{"int_elements": x, "op0": a} for x in (0, 1) for a in range(3)],
